@@ -12,7 +12,7 @@ ASSUMPTIONS = [
     "post-hook faults are outside this property (C01/C16 judge them)",
 ]
 GATES = [
-    "mon.C03.deep_chain", "mon.C03.wide_node",
+    "mon.C03.deep_chain", "mon.C03.wide_node", "mon.C03.mixed_mixins",
     "mon.C03.unchanged", "C03.refusal.TreeError", "C03.refusal.LoopError", "C03.refusal.TypeError",
     "C03.unchanged_ok.veto.pre_detach", "C03.unchanged_ok.veto.pre_attach", "C03.unchanged_ok.veto.pre_detach_children",
     "C03.unchanged_ok.veto.pre_attach_children", "C03.veto.setparent", "C03.veto.setchildren", "C03.veto.delchildren",
